@@ -197,7 +197,7 @@ def run_n2w(scn):
         sim.step()
         cyc += 1
         if not cyc & 63 and stuck(sim, cyc):
-            break       # no handshake anywhere for 20000 cycles: the run is stuck, do not spin to the cap
+            break       # no handshake anywhere for 60000 cycles: the run is stuck, do not spin to the cap
         if mas.idle():
             quiet += 1
             if quiet > 20:
@@ -319,7 +319,7 @@ def run(scn):
         sim.step()
         cyc += 1
         if not cyc & 63 and stuck(sim, cyc):
-            break       # no handshake anywhere for 20000 cycles: the run is stuck, do not spin to the cap
+            break       # no handshake anywhere for 60000 cycles: the run is stuck, do not spin to the cap
         if mas.done() and mem.idle():
             quiet += 1
             if quiet > need_quiet:
